@@ -103,7 +103,9 @@ fn synchronize_jobs(
         .filter_map(|(single, activity)| activity.retrieve_job().map(|job| (job, single)))
         .filter(|(job, _)| !assigned_jobs.contains(job))
         .fold(
-            (HashMap::default(), HashSet::<Job>::default()),
+            // NOTE: multi jobs with invalid sub-jobs order have to be known in advance: once inserted, their
+            // sub-jobs distort the state used to check other jobs (e.g. delivery before pickup gives negative load)
+            (HashMap::default(), get_invalid_multi_jobs(route_ctx)),
             |(mut synchronized_jobs, mut invalid_multi_job_ids), (job, single)| {
                 let is_already_processed = synchronized_jobs.contains_key(&job) && job.as_single().is_some();
                 let is_invalid_multi_job = invalid_multi_job_ids.contains(&job);
@@ -147,6 +149,28 @@ fn synchronize_jobs(
         );
 
     synchronized_jobs
+}
+
+fn get_invalid_multi_jobs(route_ctx: &RouteContext) -> HashSet<Job> {
+    let singles = route_ctx
+        .route()
+        .tour
+        .all_activities()
+        .filter_map(|activity| activity.job.as_ref().zip(activity.retrieve_job()))
+        .filter(|(_, job)| job.as_multi().is_some())
+        .fold(HashMap::<Job, Vec<Arc<Single>>>::default(), |mut acc, (single, job)| {
+            acc.entry(job).or_default().push(single.clone());
+            acc
+        });
+
+    singles
+        .into_iter()
+        .filter(|(job, singles)| {
+            job.as_multi()
+                .is_some_and(|multi| multi.jobs.len() != singles.len() || !compare_singles(multi, singles.as_slice()))
+        })
+        .map(|(job, _)| job)
+        .collect()
 }
 
 fn is_activity_to_single_match(activity: &Activity, single: &Single) -> bool {
